@@ -203,3 +203,139 @@ def read_logs(engine):
                 })
             out[(c, ki)] = evs
     return out
+
+
+# ======================================================================================
+# Wrapping probe: delegates to a real kernel and records, per protocol call, the inner
+# tuning state before and after, the reported acceptance probability and driver-defined
+# observations of the model state before/after.
+
+
+@register_dataclass_as_pytree
+@dataclass
+class WrapState:
+    inner: object
+    ilog: jnp.ndarray  # int32[CAP, W]
+    flog: jnp.ndarray  # float32[CAP, NF]
+    keys: jnp.ndarray  # uint32[CAP, 2]
+    cur: jnp.ndarray
+
+
+def default_tun(ks):
+    """(step_size, error_sum, log_avg_step_size, mu) + flattened inverse mass matrix."""
+    out = [ks.step_size, ks.error_sum, ks.log_avg_step_size, ks.mu]
+    out = [jnp.asarray(x, jnp.float32).reshape(()) for x in out]
+    if hasattr(ks, "inverse_mass_matrix"):
+        out += list(jnp.ravel(jnp.asarray(ks.inverse_mass_matrix, jnp.float32)))
+    return out
+
+
+class WrapKernel:
+    """Kernel-protocol wrapper around a real kernel `inner`."""
+
+    def __init__(self, inner, n_tun=4, obs_fn=None, n_obs=0, cap=512, tun_fn=default_tun):
+        self.inner = inner
+        self.position_keys = tuple(inner.position_keys)
+        self.identifier = ""
+        self.error_book = inner.error_book
+        self.needs_history = inner.needs_history
+        self.n_tun, self.obs_fn, self.n_obs, self.cap, self.tun_fn = n_tun, obs_fn, n_obs, cap, tun_fn
+        self.nf = 2 * n_tun + 1 + n_obs
+        self._model = None
+
+    def set_model(self, model):
+        self._model = model
+        self.inner.set_model(model)
+
+    def has_model(self):
+        return self.inner.has_model()
+
+    def _rec(self, st_log, key, kind, epoch, pre, post, acc=0.0, code=0, moved=0, obs=None):
+        ilog, flog, keys, cur = st_log
+        if epoch is None:
+            row = [kind, -1, -1, -1, -1, -1, code, moved]
+        else:
+            row = [kind, epoch.nth_epoch, epoch.config.type, epoch.time, epoch.time_in_epoch,
+                   epoch.config.duration, code, moved]
+        row = jnp.stack([jnp.asarray(v, jnp.int32).reshape(()) for v in row])
+        fl = list(pre) + list(post) + [jnp.asarray(acc, jnp.float32).reshape(())]
+        fl += list(obs) if obs is not None else [jnp.zeros((), jnp.float32)] * self.n_obs
+        fl = jnp.stack([jnp.asarray(v, jnp.float32).reshape(()) for v in fl])
+        i = jnp.minimum(cur, self.cap - 1)
+        return (ilog.at[i].set(row), flog.at[i].set(fl),
+                keys.at[i].set(jnp.asarray(key, jnp.uint32).reshape(2)), cur + 1)
+
+    def _logs(self, st):
+        return (st.ilog, st.flog, st.keys, st.cur)
+
+    def init_state(self, prng_key, model_state):
+        inner = self.inner.init_state(prng_key, model_state)
+        logs = (jnp.zeros((self.cap, W), jnp.int32), jnp.zeros((self.cap, self.nf), jnp.float32),
+                jnp.zeros((self.cap, 2), jnp.uint32), jnp.asarray(0, jnp.int32))
+        post = self.tun_fn(inner)
+        logs = self._rec(logs, prng_key, 1, None, post, post)
+        return WrapState(inner, *logs)
+
+    def _simple(self, kind, fn, prng_key, st, model_state, epoch):
+        pre = self.tun_fn(st.inner)
+        inner = fn(prng_key, st.inner, model_state, epoch)
+        logs = self._rec(self._logs(st), prng_key, kind, epoch, pre, self.tun_fn(inner))
+        return WrapState(inner, *logs)
+
+    def start_epoch(self, prng_key, kernel_state, model_state, epoch):
+        return self._simple(2, self.inner.start_epoch, prng_key, kernel_state, model_state, epoch)
+
+    def end_epoch(self, prng_key, kernel_state, model_state, epoch):
+        return self._simple(4, self.inner.end_epoch, prng_key, kernel_state, model_state, epoch)
+
+    def transition(self, prng_key, kernel_state, model_state, epoch):
+        pre = self.tun_fn(kernel_state.inner)
+        out = self.inner.transition(prng_key, kernel_state.inner, model_state, epoch)
+        obs = None
+        if self.obs_fn is not None:
+            obs = self.obs_fn(self._model, model_state, out.model_state, out.info, epoch, prng_key)
+        logs = self._rec(self._logs(kernel_state), prng_key, 3, epoch, pre, self.tun_fn(out.kernel_state),
+                         acc=out.info.acceptance_prob, code=out.info.error_code,
+                         moved=out.info.position_moved, obs=obs)
+        return TransitionOutcome(out.info, WrapState(out.kernel_state, *logs), out.model_state)
+
+    def tune(self, prng_key, kernel_state, model_state, epoch, history):
+        pre = self.tun_fn(kernel_state.inner)
+        out = self.inner.tune(prng_key, kernel_state.inner, model_state, epoch, history)
+        hl = -1
+        if history is not None:
+            hl = jax.tree_util.tree_leaves(history)[0].shape[0]
+        logs = self._rec(self._logs(kernel_state), prng_key, 5, epoch, pre, self.tun_fn(out.kernel_state),
+                         code=hl)
+        return TuningOutcome(out.info, WrapState(out.kernel_state, *logs))
+
+    def end_warmup(self, prng_key, kernel_state, model_state, tuning_history):
+        pre = self.tun_fn(kernel_state.inner)
+        out = self.inner.end_warmup(prng_key, kernel_state.inner, model_state, tuning_history)
+        logs = self._rec(self._logs(kernel_state), prng_key, 6, None, pre, self.tun_fn(out.kernel_state))
+        return WarmupOutcome(out.error_code, WrapState(out.kernel_state, *logs))
+
+
+def read_wrap_logs(engine, kernels):
+    """Per (chain, kernel index): list of event dicts for WrapKernel states."""
+    kss = getattr(engine, "_kernel_states")
+    out = {}
+    for ki, ks in enumerate(kss):
+        if not isinstance(ks, WrapState):
+            continue
+        nt = kernels[ki].n_tun
+        ilog, flog, keys, cur = (np.asarray(x) for x in (ks.ilog, ks.flog, ks.keys, ks.cur))
+        for c in range(ilog.shape[0]):
+            n = int(cur[c])
+            if n > ilog.shape[1]:
+                raise RuntimeError("wrap probe log overflow")
+            evs = []
+            for i in range(n):
+                r = [int(x) for x in ilog[c, i]]
+                f = [float(x) for x in flog[c, i]]
+                evs.append({"kind": KINDS[r[0]], "epoch": r[1], "etype": r[2], "time": r[3], "tie": r[4],
+                            "dur": r[5], "code": r[6], "moved": r[7],
+                            "pre": f[:nt], "post": f[nt:2 * nt], "acc": f[2 * nt], "obs": f[2 * nt + 1:],
+                            "key": f"{int(keys[c, i, 0])}:{int(keys[c, i, 1])}"})
+            out[(c, ki)] = evs
+    return out
